@@ -5,6 +5,9 @@ import (
 	"errors"
 	"fmt"
 	"io"
+	"os"
+	"oxverif/harness/core"
+	"sort"
 	"strconv"
 	"strings"
 	"sync"
@@ -211,8 +214,90 @@ func (e *rsExec) ExecuteWrite(context.Context, *proto.WriteRequest) (*proto.Writ
 func (e *rsExec) ExecuteRead(context.Context, *proto.ReadRequest) (proto.OxiaClient_ReadClient, error) {
 	return nil, errors.New("not used")
 }
-func (e *rsExec) ExecuteList(context.Context, *proto.ListRequest) (proto.OxiaClient_ListClient, error) {
-	return nil, errors.New("not used")
+func (e *rsExec) ExecuteList(ctx context.Context, r *proto.ListRequest) (proto.OxiaClient_ListClient, error) {
+	s := ""
+	if int(*r.Shard) < len(e.scripts) {
+		s = e.scripts[*r.Shard]
+	}
+	if s == "e" {
+		return nil, errors.New("shard unavailable")
+	}
+	var items []string
+	if s != "" && s != "_" {
+		items = strings.Split(s, "+")
+	}
+	return &lsStream{rsStream{ctx: ctx, items: items}}, nil
+}
+
+// lsStream: every item is one response; its keys are separated by '.'
+type lsStream struct{ rsStream }
+
+func (s *lsStream) Recv() (*proto.ListResponse, error) {
+	if len(s.items) == 0 {
+		return nil, io.EOF
+	}
+	it := s.items[0]
+	s.items = s.items[1:]
+	if it == "x" {
+		return nil, errors.New("stream broken")
+	}
+	return &proto.ListResponse{Keys: strings.Split(it, ".")}, nil
+}
+
+// ls.run single=0|1 shards=a.b+c;e;d+x : the client's List over a fake executor: what arrives on the result
+// channel (keys sorted: the order across shards is a matter of timing), how many errors, and whether the
+// channel gets closed
+func c20List(kv map[string]string) string {
+	scripts := strings.Split(kv["shards"], ";")
+	res, closed := oxia.VerifList(&rsExec{scripts: scripts}, len(scripts), kv["single"] == "1", 1500*time.Millisecond)
+	errs := 0
+	var keys []string
+	for _, r := range res {
+		if r.Err != nil {
+			errs++
+		} else {
+			keys = append(keys, r.Keys...)
+		}
+	}
+	sort.Strings(keys)
+	ks := strings.Join(keys, ",")
+	if ks == "" {
+		ks = "_"
+	}
+	return fmt.Sprintf("closed=%v errs=%d keys=%s", closed, errs, ks)
+}
+
+// c20ListExpected: the property, straight from the script: the union of what the shards deliver before they
+// fail, one error per failing shard
+func c20ListExpected(kv map[string]string) string {
+	scripts := strings.Split(kv["shards"], ";")
+	if kv["single"] == "1" {
+		scripts = scripts[:1]
+	}
+	errs := 0
+	var keys []string
+	for _, s := range scripts {
+		if s == "e" {
+			errs++
+			continue
+		}
+		if s == "" || s == "_" {
+			continue
+		}
+		for _, it := range strings.Split(s, "+") {
+			if it == "x" {
+				errs++
+				break
+			}
+			keys = append(keys, strings.Split(it, ".")...)
+		}
+	}
+	sort.Strings(keys)
+	ks := strings.Join(keys, ",")
+	if ks == "" {
+		ks = "_"
+	}
+	return fmt.Sprintf("closed=true errs=%d keys=%s", errs, ks)
 }
 func (e *rsExec) ExecuteRangeScan(ctx context.Context, r *proto.RangeScanRequest) (proto.OxiaClient_RangeScanClient, error) {
 	s := ""
@@ -269,4 +354,52 @@ func c20RangeScan(kv map[string]string) string {
 		return fmt.Sprintf("closed=%v err=true", closed)
 	}
 	return fmt.Sprintf("closed=%v err=false n=%d", closed, n)
+}
+
+// ---- a list whose caller cancels its context (or whose deadline passes) while the shards are still sending ----
+
+// lcExec: every shard delivers one key and then waits for the end of the context, as a gRPC stream does; the
+// cancellation surfaces as an error after a delay that differs per shard
+type lcExec struct{ rsExec }
+
+func (e *lcExec) ExecuteList(ctx context.Context, r *proto.ListRequest) (proto.OxiaClient_ListClient, error) {
+	return &lcStream{rsStream: rsStream{ctx: ctx}, shard: *r.Shard}, nil
+}
+
+type lcStream struct {
+	rsStream
+	shard int64
+	n     int
+}
+
+func (s *lcStream) Recv() (*proto.ListResponse, error) {
+	s.n++
+	if s.n == 1 {
+		return &proto.ListResponse{Keys: []string{fmt.Sprintf("k%d", s.shard)}}, nil
+	}
+	<-s.ctx.Done()
+	time.Sleep(time.Duration(10+20*s.shard) * time.Millisecond)
+	return nil, s.ctx.Err()
+}
+
+// ls.cancel shards=K : the caller reads the first K results, cancels, and drains the channel
+func c20ListCancel(op string, kv map[string]string) string {
+	if os.Getenv("OXV_ISOLATED") == "" {
+		return core.Isolated("C20", op, 20*time.Second)
+	}
+	var k int
+	fmt.Sscan(kv["shards"], &k)
+	res, closed := oxia.VerifListCancel(&lcExec{}, k, k, 3*time.Second)
+	time.Sleep(time.Duration(100+20*k) * time.Millisecond) // goroutines that are still sending
+	errs := 0
+	var keys []string
+	for _, r := range res {
+		if r.Err != nil {
+			errs++
+		} else {
+			keys = append(keys, r.Keys...)
+		}
+	}
+	sort.Strings(keys)
+	return fmt.Sprintf("closed=%v errs=%d keys=%s", closed, errs, strings.Join(keys, ","))
 }
